@@ -59,6 +59,13 @@ def cases(seed, tier):
             for j in range(12):
                 root['kids'].append({'cls': rng.choice(cls4), 'name': 's%02d' % j, 'tok': T.fresh_tok(), 'rank': 1, 'mds': [], 'kids': []})
         out.append(scenario(root))
+    # wide and long at once: many siblings under one parent, one of them with a very long (valid) name
+    for width, ln in ((40, 2500), (70, 1200)) if tier == 'quick' else ((40, 2500), (70, 1200), (120, 700), (33, 4000)):
+        root = {'cls': 'Root', 'name': 'r', 'tok': 0, 'rank': 0, 'mds': [], 'kids': [
+            {'cls': 'Node', 'name': 'wide', 'tok': 0, 'rank': 0, 'mds': [], 'kids':
+                [{'cls': cls4[j % 4], 'name': 'w%03d' % j, 'tok': T.fresh_tok() if j % 4 else 0, 'rank': 1, 'mds': [], 'kids': []} for j in range(width)] +
+                [{'cls': 'Array', 'name': 'L' * ln, 'tok': T.fresh_tok(), 'rank': 1, 'mds': [], 'kids': []}]}]}
+        out.append(scenario(root))
     return out
 
 
